@@ -365,8 +365,67 @@ def run(chk):
     if env.get("last") != "this.snapshots.back()" or len(emps) != 2 or not all(show(c["a"][0]) == "last" and "this.snapshots" in show(c.get("obj")) for c in emps):
         chk.violation(r_next, "create_next", "create_next no longer builds the new state from snapshots.back()", cn[0]["file"], cn[0]["l"])
 
+    # ---- C03.prefix: what is fixed before the first report step may only depend on input before the SCHEDULE section
+    r_pre = chk.rule("C03.prefix", "code that builds the schedule-wide static data and the first state queries the whole Deck only for keywords that cannot occur in the SCHEDULE section, or stops at SCHEDULE", floor=60)
+    import json as _json
+    import os as _os
+    kwroot = _os.path.join(chk.root if _os.path.isdir(_os.path.join(chk.root, "opm/input/eclipse/share/keywords")) else core.REPO, "opm/input/eclipse/share/keywords")
+    sched_kw = {}
+    for rel in re.findall(r"^\s+(\d{3}_\w+/[A-Za-z0-9_/]+)\)?\s*$", open(_os.path.join(kwroot, "keyword_list.cmake")).read(), re.M):
+        try:
+            txt = open(_os.path.join(kwroot, rel)).read()
+            txt = re.sub(r"(\d)\.([eE])", r"\1.0\2", txt)
+            txt = re.sub(r"(\d)\.(\s*[,}\]\n])", r"\1.0\2", txt)
+            d = _json.loads(txt, strict=False)
+        except Exception as e:
+            raise core.AnalysisBroken("keyword file %s does not parse: %s" % (rel, e))
+        sched_kw[d.get("name", rel.split("/")[-1])] = "SCHEDULE" in d.get("sections", [])
+    allow_p = load_allow("c03_prefix.json")
+    used_p = set()
+    by_q = {}
+    for f in fns:
+        by_q.setdefault(f["q"], []).append(f)
+    clo = set()
+    work = ["Opm::ScheduleStatic::ScheduleStatic", "Opm::Schedule::create_first"]
+    for w_ in work:
+        if w_ not in by_q:
+            raise core.AnalysisBroken("anchor %s not found" % w_)
+    while work:
+        q = work.pop()
+        if q in clo:
+            continue
+        clo.add(q)
+        for f in by_q.get(q, []):
+            for c in f.get("callees", []):
+                if c in by_q and c not in clo:
+                    work.append(c)
+    QUERY = ("hasKeyword", "get", "operator[]", "getKeywordList", "count", "getKeyword", "index")
+    for q in sorted(clo):
+        for f in by_q[q]:
+            if not f.get("body"):
+                continue
+            for n in walk_fn(f):
+                if n["k"] in ("MCall", "OpCall") and (n.get("cls") or "") == "Opm::Deck" and n.get("m") in QUERY:
+                    kws = [t.split("::")[-1] for t in n.get("targs") or []] or [x["v"] for x in walk(n) if x["k"] == "Str"]
+                    for kw in kws:
+                        key = "%s:%s" % (q, kw)
+                        insched = sched_kw.get(kw)
+                        chk.instance(r_pre, key, nontrivial=bool(insched), sample=dict(function=q, query=n["m"], keyword=kw, valid_in_SCHEDULE=insched))
+                        if insched:
+                            a = allow_p.get((q, kw))
+                            if a:
+                                used_p.add((q, kw))
+                                continue
+                            chk.violation(r_pre, key, "%s asks the whole Deck for %s, a keyword that may appear in the SCHEDULE section, while building data that is fixed before the first report step: states 0..k then depend on input of later report steps" % (q, kw), f["file"], n["l"])
+                if n["k"] == "ForRange" and (strip(n["range"]).get("t") or "").replace("const ", "").strip(" &") in ("Opm::Deck", "Deck"):
+                    stops = [i for i in walk(n["body"]) if i["k"] == "If" and any(x["k"] == "Str" and x["v"] == "SCHEDULE" for x in walk(i["cond"])) and any(x["k"] in ("Break", "Return") for x in walk(i["then"]))]
+                    key = "%s:loop" % q
+                    chk.instance(r_pre, key, sample=dict(function=q, loop="over the whole Deck", stops_at_SCHEDULE=bool(stops)))
+                    if not stops:
+                        chk.violation(r_pre, key, "%s iterates the whole Deck without stopping at the SCHEDULE keyword while building data that is fixed before the first report step" % q, f["file"], n["l"])
+
     # stale allow-list entries
-    for name, allow, used in (("c03_escapes.json", allow_e, used_e), ("c03_through.json", allow_t, used_t), ("c03_index.json", allow_i, used_i), ("c03_globals.json", allow_g, used_g)):
+    for name, allow, used in (("c03_prefix.json", allow_p, used_p), ("c03_escapes.json", allow_e, used_e), ("c03_through.json", allow_t, used_t), ("c03_index.json", allow_i, used_i), ("c03_globals.json", allow_g, used_g)):
         for k in allow:
             if k not in used:
                 chk.info("C03.allow", "allow-list entry %s %s in %s matched nothing on this tree" % (k[0], k[1], name))
